@@ -153,7 +153,7 @@ INCLUDEStatement * INCLUDEStatement::parse(Parser& p, Context& ctx)
   {
     TokenPtr t = p.front();
     Expression * e = ParseExpression::expression(p, ctx);
-    if (e->type(ctx) != Type::LITERAL)
+    if (e->type(ctx) != Type::LITERAL || e->type(ctx).level() > 0)
     {
       delete e;
       throw ParseError(EXC_PARSE_NOT_LITERAL, t);
